@@ -30,8 +30,8 @@ TABLE = {
     "meter": (100.0, _d(cm=1), EXACT),
     "kilometer": (1.0e5, _d(cm=1), EXACT),
     "astronomical_unit": (AU, _d(cm=1), 1e-12),
-    "parsec": (PC, _d(cm=1), 1e-12),
-    "kiloparsec": (PC * 1e3, _d(cm=1), 1e-12),
+    "parsec": (PC, _d(cm=1), 1e-10),  # pint uses au/tan(1"), IAU 2015 uses 648000/pi au: 8e-12 apart
+    "kiloparsec": (PC * 1e3, _d(cm=1), 1e-10),
     "light_year": (9.4607304725808e17, _d(cm=1), 1e-12),
     "solar_radius": (6.957e10, _d(cm=1), 1e-4),  # IAU 2015 nominal
     "earth_radius": (6.3781e8, _d(cm=1), 1e-4),  # IAU 2015 nominal equatorial
